@@ -48,7 +48,7 @@ def host2(q=3):
     c.emplace_gate('e2', G.NOT, ('h0',))
     c.emplace_gate('e3', G.OR, ('e0', ins[2 % q]))
     c.emplace_gate('e4', G.GT, ('e1', 'e2'))
-    c.set_outputs(['e1', 'h0', 'e4'])
+    c.set_outputs(['e1', 'h0', 'e4', 'e1'])  # one gate on two output pins
     c.make_block('HB', ['e0', 'e3'], ['e3'])
     pool = [p for p in H2_POOL if p in c.gates]
     return space.variant(c), pool
@@ -215,7 +215,7 @@ def odd_label_host(k):
     """inputs whose labels are unusual but legal strings (empty label, digits, a generated-looking name)."""
     from cirbo.core.circuit import Circuit
 
-    pool = ['', '0', 'new_', 'inf_label', '_PLACEHOLDER_STR_x', 'A b', 'zz', 'not_0', 'x@y']
+    pool = ['zero', 'one', '', '0', 'new_', 'inf_label', '_PLACEHOLDER_STR_x', 'A b', 'zz', 'not_0', 'x@y', 'const', 'false', 'carry', 'sum']
     labs = [pool[i] if i < len(pool) else f'in{i}' for i in range(k)]
     c = Circuit()
     c.add_inputs(labs)
